@@ -327,8 +327,8 @@ def _draw_healthy(world: World) -> list[dict]:
     return out
 
 
-def _draw_link(world: World, net: SimNet) -> str:
-    if not world.chance("sw.link", 1, 2):
+def _draw_link(world: World, net: SimNet, faulty_run: bool) -> str:
+    if not faulty_run or not world.chance("sw.link", 1, 2):
         return "whole"
     d = Delivery.draw(world, "link", max_delay=4)
     net.default_delivery = lambda name: Delivery(d.frag, d.size, d.delays)
@@ -373,10 +373,25 @@ class Variant:
         """scripted remote end used by the faulty client: needs write(bytes), fin(), reset(), close()"""
         return Peer(world, sock)
 
+    def after_connect(self, world: World, plan: Plan, peer: Any) -> bool:
+        """what the faulty peer does right after its connect() returned; True = the peer is gone (script stops)"""
+        if plan.setup == "reset":
+            world.fault("rst_at")
+            world.probe("setup@reset")
+            peer.reset()
+            return True
+        if plan.setup == "close":
+            world.fault("fin_at")
+            world.probe("setup@close")
+            peer.close()
+            return True
+        return False
+
     def apply_setup_fault(self, world: World, plan: Plan, srv: SimSocket, peer_sock: SimSocket) -> None:
         """faults installed on the accepted socket at SYN time (before accept() returns it)"""
         if plan.setup == "getpeername":
             world.fault("accept_error")
+            world.probe("setup@getpeername")
 
             def fp(sock: SimSocket, op: str) -> OSError | None:
                 if op == "getpeername":
@@ -386,6 +401,7 @@ class Variant:
             srv.fault_plan = fp
         elif plan.setup == "setsockopt":
             world.fault("accept_error")
+            world.probe("setup@setsockopt")
             code = plan.setup_errno
 
             def setsockopt(*a: Any, **kw: Any) -> None:
@@ -415,9 +431,9 @@ def _h_tcp(world: World, variant_name: str) -> None:
     shape = "gen" if world.choose("shape", 2) else "coro"
     reqs_per_gen = (1, 2, 3, 1000)[world.choose("reqs_per_gen", 4)]
     healthy = _draw_healthy(world)
-    any_fault = world.chance("any_fault", 2, 3)
+    any_fault = world.chance("any_fault", 2, 3)  # a third of the runs: no fault of any kind (baseline)
     plans = [_draw_plan(world, f"bad{i}", TCP_POSITIONS[shape], variant.setups, any_fault) for i in range(1 + world.choose("nfaulty", 2))]
-    link = _draw_link(world, net)
+    link = _draw_link(world, net, any_fault)
     world.notes.update(variant=family, buffered=buffered, shape=shape, reqs_per_gen=reqs_per_gen, healthy=healthy, plans=[p.describe() for p in plans], link=link)  # type: ignore[attr-defined]
 
     ser = StringLineSerializer(encoding="ascii")
@@ -477,14 +493,7 @@ def _h_tcp(world: World, variant_name: str) -> None:
             handler.plans[sock.sockname[1]] = plan
             peer = variant.raw_peer(world, sock)
             state["peer"] = peer
-            if plan.setup == "reset":
-                world.fault("rst_at")
-                peer.reset()
-                state["dead"] = True
-            elif plan.setup == "close":
-                world.fault("fin_at")
-                peer.close()
-                state["dead"] = True
+            state["dead"] = variant.after_connect(world, plan, peer)
 
         world.at(t, connect)
 
@@ -545,7 +554,7 @@ def _h_tcp(world: World, variant_name: str) -> None:
                     for p in plans:
                         s = srv_socks.get(p.name)
                         if s is None or not s.sim_closed:
-                            raise _viol(family, "faulty-connection-closed", f"server-side socket of {p.describe()} still open {CLOSE_WAIT}s after the client's script (incl. FIN) ended; serve_forever done={server_task.done()}", _site([p]))
+                            raise _viol(family, "faulty-connection-closed", f"server-side socket of {p.describe()} still open {CLOSE_WAIT}s after the client's script (incl. FIN) ended; all plans={[q.describe() for q in plans]} serve_forever done={server_task.done()}", _site(plans if server_task.done() else [p]))
                 await asyncio.sleep(0.25)
                 faults_over.set()
                 if htasks:
@@ -578,10 +587,13 @@ def _h_tcp(world: World, variant_name: str) -> None:
                     world.probe("faulty_conn_done" if done else "faulty_conn_not_done")
                     if disc != (1 if done else 0):
                         raise _viol(family, "on-disconnection-iff-on-connection-completed", f"{p.describe()}: on_connection entered={bool(st and st.entered)} completed={done}, on_disconnection calls={disc}", _site([p]))
-                for spec in healthy + [{"name": "probe"}]:
-                    pass
+                # healthy connections are all closed by their clients by now: hook ran exactly once for each of them
+                def healthy_disc() -> bool:
+                    return all(st.disc >= 1 for st in handler.states.values() if st.plan is None)
+
+                await wait_until(world, healthy_disc, max_time=10.0, step=0.25)
                 for key, st in handler.states.items():
-                    if st.plan is None and st.disc != 1:
+                    if st.plan is None and (st.disc != 1 or not st.conn_done):
                         raise _viol(family, "healthy-on-disconnection-once", f"healthy connection from port {key}: on_connection completed={st.conn_done}, on_disconnection calls={st.disc}", _site(plans))
             finally:
                 await srv.shutdown()
@@ -606,9 +618,9 @@ def _h_udp(world: World) -> None:
     backend = SimAsyncIOBackend(net)
     reqs_per_gen = (1, 2, 3, 1000)[world.choose("reqs_per_gen", 4)]
     healthy = _draw_healthy(world)
-    any_fault = world.chance("any_fault", 2, 3)
+    any_fault = world.chance("any_fault", 2, 3)  # a third of the runs: no fault of any kind (baseline)
     plans = [_draw_plan(world, f"bad{i}", UDP_POSITIONS, (), any_fault) for i in range(1 + world.choose("nfaulty", 2))]
-    delay_mode = world.choose("dgram_delay", 3)  # 0 none | 1 fixed 1U | 2 random 0..4U per datagram towards the server
+    delay_mode = world.choose("dgram_delay", 3) if any_fault else 0  # 0 none | 1 fixed 1U | 2 random 0..4U per datagram towards the server
     if delay_mode:
         world.fault("delay")
     world.notes.update(variant=family, reqs_per_gen=reqs_per_gen, healthy=healthy, plans=[p.describe() for p in plans], delay_mode=delay_mode)  # type: ignore[attr-defined]
@@ -731,7 +743,7 @@ def _h_udp(world: World) -> None:
                     req = f"{p.name}-again"
                     err = await exchange(p.name, req)
                     if err is not None:
-                        raise _viol(family, "faulty-address-answered-after-fault", f"{err}; plan={p.describe()} serve_forever done={server_task.done()}", _site([p]))
+                        raise _viol(family, "faulty-address-answered-after-fault", f"{err}; plan={p.describe()} all plans={[q.describe() for q in plans]} serve_forever done={server_task.done()}", _site(plans if server_task.done() else [p]))
                     st = handler.states[addr_of[p.name]]
                     gen = [g for r, g in st.served if r == req][-1]
                     if p.fired:
